@@ -4,6 +4,7 @@ import PhysisModel.Proofs.C18Dat
 import PhysisModel.Proofs.C18Arc
 import PhysisModel.Proofs.C18Mtrl
 import PhysisModel.Proofs.C18Shpk
+import PhysisModel.Proofs.C18Skel
 /-!
 # C18 — damaged game data is rejected without crashing
 
@@ -205,5 +206,70 @@ example : (C18Mtrl.mtrl [0, 0, 0, 0, 0, 0, 0, 0, 1, 0, 0, 0, 0, 0, 0, 4, 0, 0, 0
 example : (C18Shpk.shpk [83, 104, 80, 107, 0, 0, 0, 0, 68, 88, 49, 49, 0, 0, 0, 0, 0, 0, 0, 0, 0, 0, 0, 0, 0, 0, 0, 0, 0, 0, 0, 0, 0, 0, 0, 0, 0, 0, 0, 0, 0, 0, 0, 0, 0, 0, 0, 0, 0, 0, 0, 0, 0, 0, 0, 0, 0, 0, 0, 0, 0, 0, 0, 0, 0, 0, 0, 0, 0, 0, 0, 0, 0, 0, 0, 0, 0, 0, 0, 0]).isOk = true := by decide
 example : (C18Shpk.shpknode [83, 104, 80, 107, 0, 0, 0, 0, 68, 88, 49, 49, 0, 0, 0, 0, 0, 0, 0, 0, 0, 0, 0, 0, 0, 0, 0, 0, 0, 0, 0, 0, 0, 0, 0, 0, 0, 0, 0, 0, 0, 0, 0, 0, 0, 0, 0, 0, 0, 0, 0, 0, 0, 0, 0, 0, 0, 0, 0, 0, 0, 0, 0, 0, 0, 0, 0, 0, 1, 0, 0, 0, 0, 0, 0, 0, 0, 0, 0, 0, 0, 0, 0, 0, 0, 0, 0, 0] 0).isOk = false := by decide
 
+/-! ## part `skel`: pbd (+ `get_deform_matrices`), tera -/
+
+/-- `PreBoneDeformer::from_existing` (name reads repaired by `fixes/C18-40`) -/
+theorem c18_pbd_total (b : Bytes) : ¬ faults (C18Skel.pbd b) := (C18Skel.pbd_good b).1
+theorem c18_pbd_alloc (b : Bytes) : (C18Skel.pbd b).peak ≤ 64 * b.length + 16777216 := (C18Skel.pbd_good b).2
+
+/-- `PreBoneDeformer::from_existing` + `get_deform_matrices(from, to)` (repaired by `fixes/C18-41/42`),
+for every file and every pair of body ids.  "No fault" includes `Fault.fuel`: the walk along the
+parent links is given `links.len() + 1` rounds and never uses them up — it terminates on every link
+table, cyclic or not. -/
+theorem c18_pbddeform_total (b : Bytes) (frm to : Nat) : ¬ faults (C18Skel.pbdDeform b frm to) :=
+  (C18Skel.pbdDeform_good b frm to).1
+theorem c18_pbddeform_alloc (b : Bytes) (frm to : Nat) :
+    (C18Skel.pbdDeform b frm to).peak ≤ 64 * b.length + 16777216 := (C18Skel.pbdDeform_good b frm to).2
+
+/-- the walk itself, for every header whose deformers have `bone_count` names and matrices (which
+`from_existing` guarantees: `C18Skel.header_post`), every start and every fuel above
+`links.len() - steps`: no fault, in particular no exhaustion of the fuel -/
+theorem c18_pbd_walk_terminates (h : C18Skel.Header) (hw : C18Skel.HeaderWF h) (to : Nat)
+    (item : C18Skel.Item) (next : C18Skel.Link) (hd : C18Skel.DeformerWF item.deformer) :
+    ¬ faults (C18Skel.walk h to (h.links.size + 1) item next 0) :=
+  (C18Skel.walk_good h hw to 0 _ item next 0 hd (by omega) (by omega)).1
+
+/-- pinned commit: one item, one bone whose name offset (255) lies beyond the end of the file -/
+theorem c18_pbd_unfixed_witness :
+    faults (C18Skel.pbdUnfixed [1, 0, 0, 0, 0x65, 0, 0, 0, 0x18, 0, 0, 0, 0, 0, 0, 0,
+      0xff, 0xff, 0xff, 0xff, 0, 0, 0, 0, 1, 0, 0, 0, 0xff, 0]) :=
+  faults_of_isFault (by decide)
+
+/-- a header with one item (no bones) and one link that is its own parent -/
+def pbdSelfParent : C18Skel.Header := ⟨#[⟨101, 0, ⟨0, 0, 0⟩⟩], #[⟨0, 0, 0⟩]⟩
+
+/-- pinned commit: on a self-parent link the walk uses up **every** amount of fuel (it never
+terminates), … -/
+theorem c18_pbddeform_unfixed_cycle_witness (fuel : Nat) :
+    faults (C18Skel.getDeformMatricesUnfixed fuel pbdSelfParent 101 999) := by
+  refine ⟨.fuel, ?_⟩
+  have hw : ∀ n, (C18Skel.walkUnfixed pbdSelfParent 999 n ⟨101, 0, ⟨0, 0, 0⟩⟩ ⟨0, 0, 0⟩).out = .fault .fuel := by
+    intro n
+    induction n with
+    | zero => rfl
+    | succ n ih => unfold C18Skel.walkUnfixed; exact ih
+  exact hw fuel
+/-- the hypotheses of `c18_pbd_walk_terminates` on that header -/
+example : ¬ faults (C18Skel.walk pbdSelfParent 999 (pbdSelfParent.links.size + 1) ⟨101, 0, ⟨0, 0, 0⟩⟩ ⟨0, 0, 0⟩ 0) :=
+  c18_pbd_walk_terminates pbdSelfParent
+    (by intro it hit; simp [pbdSelfParent] at hit; subst hit; exact ⟨rfl, rfl⟩) 999 _ _ ⟨rfl, rfl⟩
+/-- … the repaired walk answers `None`, … -/
+example : (C18Skel.getDeformMatrices pbdSelfParent 101 999).cls = "none" := by decide
+/-- … and that header is what the 28-byte witness file parses to -/
+example : (C18Skel.pbd [1, 0, 0, 0, 0x65, 0, 0, 0, 0x18, 0, 0, 0, 0, 0, 0, 0,
+    0, 0, 0xff, 0xff, 0, 0, 0, 0, 0, 0, 0, 0]).out = .ok pbdSelfParent := by rfl
+
+/-- pinned commit: `links[item.link_index as usize]` with `link_index = 1` and one link -/
+theorem c18_pbddeform_unfixed_index_witness :
+    faults (C18Skel.getDeformMatricesUnfixed 2 ⟨#[⟨101, 1, ⟨0, 0, 0⟩⟩], #[⟨0xFFFF, 0, 0⟩]⟩ 101 999) :=
+  faults_of_isFault (by decide)
+
+/-- `Terrain::from_existing` (no repair needed: `positions` has exactly `plate_count` elements) -/
+theorem c18_tera_total (b : Bytes) : ¬ faults (C18Skel.tera b) := (C18Skel.tera_good b).1
+theorem c18_tera_alloc (b : Bytes) : (C18Skel.tera b).peak ≤ 64 * b.length + 16777216 := (C18Skel.tera_good b).2
+
+/-- non-vacuity: a 56-byte terrain with one plate parses; the chain file of the generator walks -/
+example : (C18Skel.tera ([3, 0, 0, 1, 1, 0, 0, 0, 128, 0, 0, 0] ++ List.replicate 40 0 ++ [1, 0, 2, 0])).isOk = true := by
+  decide
 
 end Physis.C18
